@@ -348,7 +348,13 @@ fn gen_desc(rng: &mut Rng, cfg: &GenCfg) -> String {
     };
     let mut d = match shape {
         0 => { let n = 1 + rng.usize_below(5); words(rng, n, " ") }
-        1 => { let n = 2 + rng.usize_below(4); let sep = if rng.chance(1, 2) { ", " } else { "," }; words(rng, n, sep) }
+        1 => {
+            let n = 2 + rng.usize_below(4);
+            let sep = if rng.chance(1, 2) { ", " } else { "," };
+            let w = words(rng, n, sep);
+            // the separator at the very start, at the very end, doubled, or alone
+            match rng.below(8) { 0 => format!(",{}", w), 1 => format!("{},", w), 2 => w.replacen(',', ",,", 1), 3 => ",".to_string(), 4 => ",,".to_string(), 5 => format!(" ,{}", w), _ => w }
+        }
         2 => format!("{}{}{}", " ".repeat(rng.usize_below(3)), words(rng, 2, " "), " ".repeat(1 + rng.usize_below(3))),
         3 => { let w = *rng.pick(WORDS); format!("<{} Ideograph, First>..<{} Ideograph, Last>", w, w) }
         4 => {
@@ -437,9 +443,10 @@ pub fn gen_good(rng: &mut Rng, cfg: &GenCfg) -> Good {
     g
 }
 
-pub const BAD_CLASSES: [&str; 14] = [
+pub const BAD_CLASSES: [&str; 17] = [
     "missing_desc", "missing_props", "missing_cp", "only_cp", "blank", "bad_prop_single", "bad_prop_left", "bad_prop_right",
     "bad_cp_empty", "bad_cp_nonhex", "bad_cp_too_big", "bad_cp_dangling_lo", "bad_cp_dangling_hi", "bad_cp_overlong",
+    "bad_prop_or_shape", "two_defects", "bad_prop_empty",
 ];
 
 fn no_comma(s: &str) -> String {
@@ -450,7 +457,8 @@ fn no_comma(s: &str) -> String {
 pub fn gen_bad(rng: &mut Rng, cfg: &GenCfg) -> Body {
     let g = gen_good(rng, cfg);
     let k = rng.usize_below(BAD_CLASSES.len());
-    let bad_names = ["PVALIDX", "VALID", "FREE-PVAL", "CONTEXT", "DISALOWED", "IDDIS", "UNASSIGNED_", "P", "NOT_A_PROPERTY", "OR", "PVALID!", "_"];
+    let bad_names = ["PVALIDX", "VALID", "FREE-PVAL", "CONTEXT", "DISALOWED", "IDDIS", "UNASSIGNED_", "P", "NOT_A_PROPERTY", "OR", "PVALID!", "_",
+        "CONTEXTJO", "DISALLOWEDD", "UNASSIGNE", "ID_DI", "FREE_PVAL_", "XPVALID", "PVALIDPVALID", "ID_DIS_FREE_PVAL", "FREE", "PVAL", "CONTEXTX", "0041"];
     let text = match k {
         0 => format!("{},{}", g.cps_text(), g.props_text()),
         1 => format!("{},{}", g.cps_text(), no_comma(&g.desc)),
@@ -490,10 +498,23 @@ pub fn gen_bad(rng: &mut Rng, cfg: &GenCfg) -> Body {
         }
         11 => format!("{:04X}-,{},{}", g.lo, g.props_text(), g.desc),
         12 => format!("-{:04X},{},{}", g.lo, g.props_text(), g.desc),
-        _ => {
+        13 => {
             let over = ["123454325460148", "124-0148-2345", "0041-0042-", "100000000", "0041--0042"];
             format!("{},{},{}", rng.pick(&over), g.props_text(), g.desc)
         }
+        14 => {
+            // valid names in an invalid 'or' arrangement
+            let a = NAMES[g.p as usize];
+            let b = NAMES[rng.usize_below(7)];
+            let shapes = [format!("{} or", a), format!("or {}", a), format!("{} or or {}", a, b), format!("{} or {} or {}", a, b, a), format!("{} {}", a, b), format!("{}or{}", a, b), format!("{} or {},", a, b).trim_end_matches(',').to_string() + " or"];
+            format!("{},{},{}", g.cps_text(), shapes[rng.usize_below(shapes.len())], g.desc)
+        }
+        15 => {
+            // two fields wrong at once: still an error, whichever is noticed first
+            let junk = ["ghy0141", "110000", "0041-", "", "-0041"];
+            format!("{},{},{}", rng.pick(&junk), rng.pick(&bad_names), g.desc)
+        }
+        _ => format!("{},,{}", g.cps_text(), g.desc),
     };
     Body::Bad { text, class: BAD_CLASSES[k].to_string() }
 }
